@@ -23,6 +23,7 @@ def specs(draw, tier):
     origin = [gen.r6(s * draw(st.floats(-20, 20, **finite))) for s in spacing]
     kind = draw(st.sampled_from(["noise", "noise", "wave", "spikes", "blob"]))
     f = {"kind": kind, "seed": draw(st.integers(0, 2**31)), "amp": gen.r6(10 ** draw(st.floats(-3, 3, **finite))), "offset": gen.r6(draw(st.sampled_from([0.0, 0.0, 1.0, -1.0, 3.0])) * draw(st.floats(0, 3, **finite)))}
+    f["dtype"] = draw(st.sampled_from(["float64"] * 6 + ["int", "bool"]))  # the same kind of image as an integer / boolean field
     if kind == "wave":
         f["mode"] = [draw(st.integers(0, max(0, n // 2))) for n in shape]
         f["phase"] = gen.r6(draw(st.floats(0, 6.28, **finite)))
@@ -117,6 +118,15 @@ class C16(Property):
         dim = len(shape)
         grid = make_grid(shape, spacing, origin)
         data = make_data(tuple(shape), spec["field"])
+        rep = spec["field"].get("dtype", "float64")
+        data_rep = None
+        if rep == "int":  # small integers (no overflow in any integer arithmetic: |values| <= 1000, <= 2000 cells)
+            scale_i = float(np.abs(data).max())
+            data_rep = np.round(data / scale_i * 1000).astype(np.int64) if scale_i > 0 else data.astype(np.int64)
+            data = data_rep.astype(float)
+        elif rep == "bool":
+            data_rep = data > float(np.median(data))
+            data = data_rep.astype(float)
         if not np.any(data != 0):
             ctx.skip("zero-field")
             return
@@ -132,6 +142,12 @@ class C16(Property):
             get_structure_factor(ScalarField(sib, data))
         except Exception:  # noqa: BLE001 - not judged
             pass
+        if data_rep is not None:
+            # the same values held as an integer / boolean field must give the same structure factor as the float field
+            ctx.cls(f"field-dtype:{rep}")
+            k_r, S_r = get_structure_factor(ScalarField(grid, data_rep, dtype=data_rep.dtype), smoothing=None)
+            k_f, S_f = get_structure_factor(field, smoothing=None)
+            ctx.require(np.shape(S_r) == np.shape(S_f) and same(S_r, S_f) and same(k_r, k_f), f"representation:{rep}", f"a {rep} field and the float field with the same values give different structure factors (sums {float(np.sum(S_r))} vs {float(np.sum(S_f))})")
         k_user, S_user = get_structure_factor(field, smoothing=None)
         ctx.require(field.data.tobytes() == snap, "field-modified", "get_structure_factor modified the field")
         if not ctx.require(k_user.shape == (N - 1,) and S_user.shape == (N - 1,), "shape", f"k {k_user.shape}, S {S_user.shape} for {N} cells"):
